@@ -43,7 +43,9 @@ def rules(ck, P='C03'):
     f = ck.facts
     ix = {n: field_index(f, CTX, n) for n in ('label', 'protocol_type', 'frag_id', 'total_len', 'pdu_len', 'from_label_reuse', 'extensions_header')}
     v_completed = variant_index(f, DS, 'CompletedPkt')
-    # ---- R1: who constructs DecapStatus::CompletedPkt
+    # ---- R1: a completed PDU is only ever delivered for a complete packet or an end fragment.  All construction sites of
+    # DecapStatus::CompletedPkt must lie in functions that decap reaches (so that the return-world rules below see them), and
+    # every return of decap carrying CompletedPkt happens in a world whose decoded packet kind is complete or end.
     sites = {}
     for b in f.non_derived():
         for blk in b.blocks:
@@ -51,20 +53,26 @@ def rules(ck, P='C03'):
                 if st['s'] == 'assign' and st['rv']['r'] == 'aggregate' and st['rv'].get('adt') == DS and st['rv'].get('variant') == v_completed:
                     sites.setdefault(b.key, 0)
                     sites[b.key] += 1
-    allowed = {DEC + 'decap_complete', DEC + 'decap_end'}
-    for k in sites:
-        if k not in allowed:
-            ck.finding(f'{P}.R1', k, 'constructs-completed', f"{short(k)} constructs DecapStatus::CompletedPkt; only decap_complete and decap_end (behind the total-length and CRC checks) may")
     ck.rule(f'{P}.R1 construction sites of DecapStatus::CompletedPkt', sum(sites.values()), 2)
-    for k in allowed:
-        if k not in sites:
-            ck.finding(f'{P}.R1', k, 'anchor-lost', f"{short(k)} no longer constructs CompletedPkt (kind=anchor-lost)")
     a = decap_analysis(ck)
+    reached = a.I.stats['functions']
+    for k in sites:
+        if k not in reached:
+            ck.finding(f'{P}.R1', k, 'constructs-completed', f"{short(k)} constructs DecapStatus::CompletedPkt outside the paths of decap that the length / CRC rules cover")
+    for w, rv in a.rets:
+        for v, fs in (ret_alts(rv) or []):
+            if v != 0:
+                continue
+            st = fs[0][1][0]
+            if st[0] == 'enum' and any(x == v_completed for x, _ in st[1]):
+                k = ghost(w, 'kind')
+                if k is None or k[0] != 'enum' or not set(x for x, _ in k[1]) <= {0, 3}:
+                    ck.finding(f'{P}.R1', DEC + 'decap', 'completed-for-fragment', 'decap can deliver a completed PDU for a packet that is neither a complete packet nor an end fragment')
     buf = a.arg('buffer')
     # ---- R3: arguments of the CRC recomputation (decap_end), evaluated at the call
     ncrc = 0
     for r in a.events('call'):
-        if r.data[2] != CRC_TRAIT or short(r.site[0]) != 'decap_end':
+        if r.data[2] != CRC_TRAIT or kind_of(r.data[5]) != 3:
             continue
         ncrc += 1
         args, W = r.data[3], r.data[5]
@@ -154,11 +162,11 @@ def rules(ck, P='C03'):
     # ---- R5/R3b: where payload bytes go (arrival-order concatenation) and lossless bookkeeping
     nw = 0
     for r in a.events('write'):
-        fn = short(r.site[0])
-        if fn not in ('decap_first', 'decap_intermediate', 'decap_end', 'decap_complete'):
-            continue
         _, base, start, ln, src = r.data[:5]
         W = r.data[6]
+        if kind_of(W) is None:
+            continue
+        fn = KIND_FN[kind_of(W)]
         if src[0] != 'seq' or src[1].root != buf[1].root:
             continue
         nw += 1
@@ -176,12 +184,12 @@ def rules(ck, P='C03'):
             ck.finding(f'{P}.R5', r.site[0], f"append-position:{fn}", f"{fn}: payload is not appended as {what}", r.site)
     ck.rule(f'{P}.R5 payload copies into storage', nw, 4)
     for r in a.events('lossy_cast'):
-        if short(r.site[0]) in ('decap_first', 'decap_intermediate', 'decap_end'):
+        if len(r.data) > 4 and kind_of(r.data[4]) in (1, 2, 3):
             ck.finding(f'{P}.R5', r.site[0], f"lossy-cast:{short(r.site[0])}:{r.data[1].pretty()}", f"{short(r.site[0])}: the length bookkeeping goes through a lossy cast of {r.data[1].pretty()} to {r.data[2]}", r.site)
     # ---- R5c: the context saved by decap_intermediate advances pdu_len by exactly the payload
     nsave = 0
     for r in a.events('call'):
-        if r.data[2] != TRAIT_MEM + 'save_frag' or short(r.site[0]) != 'decap_intermediate':
+        if r.data[2] != TRAIT_MEM + 'save_frag' or kind_of(r.data[5]) != 2:
             continue
         nsave += 1
         W = r.data[5]
@@ -203,7 +211,7 @@ def rules(ck, P='C03'):
     # ---- R7: the context created by a first fragment comes from this packet only
     nnew = 0
     for r in a.events('call'):
-        if r.data[2] != TRAIT_MEM + 'new_frag' or short(r.site[0]) != 'decap_first':
+        if r.data[2] != TRAIT_MEM + 'new_frag' or kind_of(r.data[5]) != 1:
             continue
         nnew += 1
         W = r.data[5]
